@@ -39,6 +39,9 @@ type xconn struct {
 	Mode      string `json:"mode"` // D = direct to the origin, U = through a scripted upstream HTTP proxy
 	Pipelined bool   `json:"pipelined"`
 	SplitAt   int    `json:"split_at"` // the first request is written in two pieces, cut after this many bytes (0 = one write)
+	// TrickleMs: every request head is sent at once, its body in three pieces with this pause before each piece
+	// (mode S: a proxy whose ReadHeaderTimeout is shorter than the time the body takes, ReadTimeout 0)
+	TrickleMs int `json:"trickle_ms,omitempty"`
 	Reqs      []xreq `json:"reqs"`
 }
 
@@ -64,10 +67,13 @@ type xrec struct {
 
 const deniedHost = "denied.test"
 
+const slowHeaderTimeout = 300 * time.Millisecond
+
 type e2eRig struct {
 	O, P, T          *g01rig.Origin // plain origin, scripted upstream proxy, TLS origin
-	PD, PU, PM       *g01rig.Proxy  // direct, via upstream proxy, MITM
+	PD, PU, PM, PS   *g01rig.Proxy  // direct, via upstream proxy, MITM, direct with a short ReadHeaderTimeout
 	tagD, tagU, tagM string
+	tagS             string
 }
 
 func learn(o *g01rig.Origin, sink *g01rig.Origin, p *g01rig.Proxy) (string, error) {
@@ -125,7 +131,18 @@ func newE2ERig() (*e2eRig, error) {
 	if err != nil {
 		return nil, err
 	}
-	rg := &e2eRig{O: o, P: p, T: t, PD: pd, PU: pu, PM: pm}
+	ps, err := g01rig.StartProxyOpts("forwarder", g01rig.ProxyOpts{ConnectHeaderCallback: true, Tweak: func(cfg *forwarder.HTTPProxyConfig) {
+		deny(cfg)
+		cfg.ReadHeaderTimeout = slowHeaderTimeout // the defaults' shape (header timeout set, ReadTimeout 0), scaled down
+		cfg.ReadTimeout = 0
+	}})
+	if err != nil {
+		return nil, err
+	}
+	rg := &e2eRig{O: o, P: p, T: t, PD: pd, PU: pu, PM: pm, PS: ps}
+	if rg.tagS, err = learn(o, o, ps); err != nil {
+		return nil, err
+	}
 	if rg.tagD, err = learn(o, o, pd); err != nil {
 		return nil, err
 	}
@@ -142,6 +159,7 @@ func (rg *e2eRig) stop() {
 	rg.PD.Stop()
 	rg.PU.Stop()
 	rg.PM.Stop()
+	rg.PS.Stop()
 	rg.O.Close()
 	rg.P.Close()
 	rg.T.Close()
@@ -222,6 +240,8 @@ func (rg *e2eRig) runConn(c xconn) ([]xobsJ, []sentInfo) {
 		px, sink, tag = rg.PU, rg.P, rg.tagU
 	case "M":
 		px, sink, tag, origin = rg.PM, rg.T, rg.tagM, rg.T.Addr()
+	case "S":
+		px, tag = rg.PS, rg.tagS
 	}
 	obs := make([]xobsJ, len(c.Reqs))
 	sent := make([]sentInfo, len(c.Reqs))
@@ -304,7 +324,12 @@ func (rg *e2eRig) runConn(c xconn) ([]xobsJ, []sentInfo) {
 			time.Sleep(2 * time.Millisecond)
 			raw = raw[c.SplitAt:]
 		}
-		if _, err := cl.C.Write(raw); err != nil {
+		if c.TrickleMs > 0 {
+			err = trickle(cl, raw, time.Duration(c.TrickleMs)*time.Millisecond)
+		} else {
+			_, err = cl.C.Write(raw)
+		}
+		if err != nil {
 			obs[i].Err = err.Error()
 			break
 		}
@@ -333,6 +358,32 @@ func transportTrouble(obs []xobsJ) bool {
 		}
 	}
 	return false
+}
+
+// trickle sends the head of a request at once and its body in three pieces, pausing before each piece.
+func trickle(cl *g01rig.Client, raw []byte, pause time.Duration) error {
+	cut := bytes.Index(raw, []byte("\r\n\r\n"))
+	if cut < 0 {
+		_, err := cl.C.Write(raw)
+		return err
+	}
+	cut += 4
+	if _, err := cl.C.Write(raw[:cut]); err != nil {
+		return err
+	}
+	body := raw[cut:]
+	for k := 0; k < 3 && len(body) > 0; k++ {
+		time.Sleep(pause)
+		n := len(body) / (3 - k)
+		if n == 0 {
+			n = len(body)
+		}
+		if _, err := cl.C.Write(body[:n]); err != nil {
+			return err
+		}
+		body = body[n:]
+	}
+	return nil
 }
 
 func framingN(f string) int {
@@ -368,6 +419,8 @@ func (rg *e2eRig) coqXcase(c xconn, i int, o xobsJ, s sentInfo) string {
 		tag, mode = rg.tagU, 1
 	case "M":
 		tag, mode = rg.tagM, 2
+	case "S":
+		tag = rg.tagS
 	}
 	maj, min := protoNums(q.Proto)
 	in := fmt.Sprintf("{| xi_mode := %d; xi_tag := %s; xi_client_ip := %s; xi_method := %s; xi_target := %s; xi_maj := %d; xi_min := %d; xi_fields := %s; xi_framing := %d; xi_blen := %d |}",
@@ -418,7 +471,7 @@ func genXreq(r *rng.R, last bool) xreq {
 		for j, m := 0, 1+r.Intn(3); j < m; j++ {
 			opts = append(opts, r.Pick([]string{"keep-alive", "x-a", "X-B", "X-Custom-Id", "Cookie", "TE", "not-present", "X-Forwarded-For", "User-Agent", "Accept"}))
 		}
-		add(r.Pick([]string{"Connection", "connection"}), strings.Join(opts, r.Pick([]string{",", ", "})))
+		add(r.Pick([]string{"Connection", "connection"}), strings.Join(opts, r.Pick([]string{",", ", ", ",\t", "\t,", " ,\t ", " , "})))
 	}
 	if r.Chance(1, 10) { // an upgrade request (answered 200 by the scripted origin)
 		add("Connection", r.Pick([]string{"Upgrade", "upgrade", "keep-alive, Upgrade"}))
@@ -585,6 +638,7 @@ func xcorpus() []xconn {
 		one("U", xreq{Method: "PUT", Target: "http://{O}/big", Proto: "HTTP/1.1", Fields: []g01rig.Field{h}, Framing: "cl", BodyLen: 70000, BodySeed: 9}),
 		one("D", xreq{Method: "GET", Target: "/ws", Proto: "HTTP/1.1", Fields: []g01rig.Field{h, {"Connection", "Upgrade"}, {"Upgrade", "websocket"}, {"Sec-WebSocket-Key", "x"}}, Framing: "none"}),
 		one("D", xreq{Method: "GET", Target: "/x", Proto: "HTTP/1.1", Fields: []g01rig.Field{h, {"Connection", "x-a, keep-alive"}, {"X-A", "1"}, {"Keep-Alive", "timeout=5"}, {"Proxy-Authorization", "Basic Zm9vOmJhcg=="}, {"TE", "trailers"}, {"X-B", "2"}}, Framing: "none"}),
+		one("D", xreq{Method: "GET", Target: "/tab", Proto: "HTTP/1.1", Fields: []g01rig.Field{h, {"Connection", "keep-alive,\tX-A"}, {"Connection", "x-b\t, X-Custom-Id"}, {"X-A", "1"}, {"X-B", "2"}, {"X-Custom-Id", "3"}, {"Accept", "kept"}}, Framing: "none"}),
 		one("D", xreq{Method: "GET", Target: "/x{y}?q={z}", Proto: "HTTP/1.1", Fields: []g01rig.Field{h}, Framing: "none"}),
 		one("D", xreq{Method: "GET", Target: "/loop", Proto: "HTTP/1.1", Fields: []g01rig.Field{h, {"Via", "1.1 alpha"}, {"Via", "1.1 {TAG}"}}, Framing: "none"}),
 		{Kind: "e2e", Mode: "D", Reqs: []xreq{
@@ -594,6 +648,10 @@ func xcorpus() []xconn {
 		{Kind: "e2e", Mode: "U", Reqs: []xreq{
 			{Method: "PUT", Target: "http://" + deniedHost + "/refused", Proto: "HTTP/1.1", Fields: []g01rig.Field{{"Host", deniedHost}}, Framing: "chunked", BodyLen: 4096, BodySeed: 12, Chunks: []int{1, 4000}, Deny: true},
 			{Method: "POST", Target: "http://{O}/after-refused-chunked", Proto: "HTTP/1.1", Fields: []g01rig.Field{h}, Framing: "cl", BodyLen: 100, BodySeed: 13},
+		}},
+		{Kind: "e2e", Mode: "D", Reqs: []xreq{ // an upgrade request answered without 101, then an ordinary request
+			{Method: "GET", Target: "/ws-refused", Proto: "HTTP/1.1", Fields: []g01rig.Field{h, {"Connection", "Upgrade"}, {"Upgrade", "websocket"}}, Framing: "none"},
+			{Method: "GET", Target: "/after-refused-upgrade", Proto: "HTTP/1.1", Fields: []g01rig.Field{h, {"X-A", "plain"}}, Framing: "none"},
 		}},
 		{Kind: "e2e", Mode: "M", Reqs: []xreq{
 			{Method: "GET", Target: "/inside?tunnel=1", Proto: "HTTP/1.1", Fields: []g01rig.Field{h, {"X-A", "1"}, {"X-A", "2"}, {"Via", "1.1 alpha"}}, Framing: "none"},
@@ -628,6 +686,25 @@ func runE2E(r *rng.R, tier, out string, m *meta) {
 	total := 0
 	for _, c := range conns {
 		total += len(c.Reqs)
+	}
+	// bodies that take longer to arrive than the proxy's ReadHeaderTimeout (head sent promptly)
+	nSlow := 4
+	if tier == "thorough" {
+		nSlow = 24
+	}
+	for k := 0; k < nSlow; k++ {
+		q := xreq{Method: []string{"POST", "PUT"}[k%2], Target: fmt.Sprintf("/slow-body-%d", k), Proto: "HTTP/1.1", BodySeed: r.U64(),
+			Fields:  []g01rig.Field{{Name: "Host", Value: "{O}"}, {Name: "Content-Type", Value: "application/octet-stream"}},
+			BodyLen: []int{3, 100, 4097, 32769}[k%4], Framing: []string{"cl", "chunked"}[(k/2)%2]}
+		if q.Framing == "chunked" {
+			q.Chunks = []int{1 + q.BodyLen/3, 1 + q.BodyLen/3}
+		}
+		reqs := []xreq{q}
+		if k%3 == 0 {
+			reqs = append(reqs, xreq{Method: "GET", Target: fmt.Sprintf("/after-slow-%d", k), Proto: "HTTP/1.1", Framing: "none",
+				Fields: []g01rig.Field{{Name: "Host", Value: "{O}"}}})
+		}
+		conns = append(conns, xconn{Kind: "e2e", Mode: "S", TrickleMs: int(slowHeaderTimeout/time.Millisecond)/2 + 50, Reqs: reqs})
 	}
 	for total < nX {
 		c := genXconn(r)
